@@ -290,4 +290,20 @@ def srun (xs : List Nat) : List SOp → List (Option Stat) → List Out × List 
     let rs := srun r.2 ops blks.tail
     (r.1 :: rs.1, rs.2)
 
+/-- well-bracketed push/pop programs: every push has its matching pop, peeks and size queries anywhere -/
+inductive Bal : List SOp → Prop where
+  | nil : Bal []
+  | peek : Bal [.peek]
+  | size : Bal [.size]
+  | wrap (y : Nat) {ops : List SOp} : Bal ops → Bal (.push y :: ops ++ [.pop])
+  | append {ops1 ops2 : List SOp} : Bal ops1 → Bal ops2 → Bal (ops1 ++ ops2)
+
+/-- net effect of one reported call on the number of elements: +1 for a successful push, −1 for a
+successful pop, 0 otherwise (blocked pushes and pops on the empty stack included) -/
+def sizeEffect (op : SOp) (o : Out) : Int :=
+  match op with
+  | .push _ => if o.st = some .ok then 1 else 0
+  | .pop => if o.st = some .ok then -1 else 0
+  | _ => 0
+
 end CC.Spec.Seq
